@@ -239,6 +239,33 @@ fn run_atomic_api(t: &mut Tape, cx: &mut Cx) -> Result<(), String> {
     } else {
         cx.nt("misaligned_atomic_refused");
     }
+    if level == 0 {
+        // the reference-returning form: refused when the *address* is misaligned, otherwise an
+        // aligned reference to the right location
+        use std::sync::atomic::*;
+        macro_rules! aref {
+            ($A:ty) => {{
+                match cs.get_atomic_ref::<$A>(off) {
+                    Ok(r) => {
+                        let p = r as *const $A as usize;
+                        ensure!(aligned, "get_atomic_ref::<{}>({}) on a container based at % 16 = {} returned a reference to the misaligned address {:#x}", stringify!($A), off, bmod, p);
+                        ensure!(p % std::mem::align_of::<$A>() == 0 && p == cs.ptr_guard().as_ptr() as usize + off, "get_atomic_ref::<{}>({}) points at {:#x}", stringify!($A), off, p);
+                    }
+                    Err(e) => ensure!(!aligned, "get_atomic_ref::<{}>({}) refused a suitably aligned address (container base % 16 = {}): {:?}", stringify!($A), off, bmod, e),
+                }
+            }};
+        }
+        match ty {
+            0 => aref!(AtomicU8),
+            1 => aref!(AtomicU16),
+            2 => aref!(AtomicU32),
+            3 => aref!(AtomicU64),
+            4 => aref!(AtomicI8),
+            5 => aref!(AtomicI32),
+            6 => aref!(AtomicUsize),
+            _ => aref!(AtomicI64),
+        }
+    }
     for (so, lo) in STORE_ORDERS.iter().zip(LOAD_ORDERS.iter()) {
         let (rs, rl): (Result<(), String>, Result<Vec<u8>, String>) = match level {
             0 => (store_sel(&cs, ty, &val, off, *so).map_err(|e| format!("{:?}", e)), load_sel(&cs, ty, off, *lo).map_err(|e| format!("{:?}", e))),
